@@ -41,9 +41,7 @@ def ConsDef.roundTrip (c : ConsDef) : ConsDef :=
   | .unique | .foreignKey =>
     { c with
       deferrable := if c.deferrable == some true then some true else none
-      initially := match c.initially with
-        | some "" => none
-        | x => x }
+      initially := if c.initially == some "" then none else c.initially }
   | _ => { c with deferrable := none, initially := none }
 
 structure IndexDef where
